@@ -19,6 +19,7 @@ RULE = ("every triple (n+, n-, N) with N <= Nmax (quick 60, thorough 140) plus, 
         "1/4 and 7/20, |NCPR| within one residue of 7/20), each realised as a sequence with a random arrangement and "
         "spelling; every 5th triple additionally as 2 more arrangements; distinct = distinct triple; non-trivial = all")
 RULE += ("; added after the mutation rounds: a share typed with blanks / line breaks / lower case; history salt; every region asked twice; the first cases of every shard are judged again at its end")
+RULE += ("; round 5: uncharged and weakly charged chains whose neutral residues come from few-letter alphabets (ACGT, ACGTN, GS, ...)")
 EXHAUSTIVE = {"quick": True, "thorough": True}
 EXHAUSTIVE_NOTE = {"quick": "all (n+, n-, N) with N <= 60 (39,710 triples)", "thorough": "all (n+, n-, N) with N <= 140"}
 ASSUMPTIONS = [
